@@ -95,7 +95,8 @@ PBody(sc, i, m, d) == IF i > Len(sc) THEN <<>> ELSE LET e == sc[i] IN
     [] e = "ParkF" -> <<Park(m), [Grant(4) EXCEPT !.nosettle = TRUE], [e |-> "Yield", n |-> 12, nosettle |-> TRUE], [e |-> "ACancel", l |-> "L1"]>> \o PBody(sc, i + 1, m + 2, d)
     [] e = "ParkD" -> <<Park(m), DispOne(d, TRUE), [e |-> "Yield", n |-> 12, nosettle |-> TRUE], [e |-> "ACancel", l |-> "L1"]>> \o PBody(sc, i + 1, m + 2, d + 1)
     \* a send of three link-level frames dropped between two of them: its delivery has started, its credit is spent
-    [] e = "ParkM" -> <<[e |-> "ASend", l |-> "L1", m |-> m, len |-> 400, nosettle |-> TRUE], [e |-> "Yield", n |-> 2, nosettle |-> TRUE], [e |-> "ACancel", l |-> "L1"]>> \o PBody(sc, i + 1, m + 1, d)
+    \* (polled once: the first frame is handed over, the second finds the capacity-1 channel full; the future is then left alone and dropped)
+    [] e = "ParkM" -> <<[e |-> "ASend", l |-> "L1", m |-> m, len |-> 400, polls |-> 1, nosettle |-> TRUE], [e |-> "Yield", n |-> 6, nosettle |-> TRUE], [e |-> "ACancel", l |-> "L1"]>> \o PBody(sc, i + 1, m + 1, d)
     [] e = "Disp" -> <<DispOne(d, FALSE)>> \o PBody(sc, i + 1, m, d + 1)
     [] OTHER -> <<[e |-> "Yield", n |-> 5]>> \o PBody(sc, i + 1, m, d)
 PSuffix == << [e |-> "ASend", l |-> "L1", m |-> 90, len |-> 20, batchable |-> TRUE], [e |-> "ASend", l |-> "L1", m |-> 91, len |-> 400, batchable |-> TRUE],
